@@ -31,7 +31,7 @@ from pyvc.oblig import obligation
 from spyne import Application, ServiceBase, rpc, Fault
 from spyne.model.complex import ComplexModel, Array
 from spyne.model.primitive import Integer, Unicode, Decimal
-from spyne.protocol.http import HttpRpc
+from spyne.protocol.http import HttpRpc, HttpPattern
 from spyne.protocol.json import JsonDocument
 from spyne.protocol.soap import Soap11
 from spyne.protocol.xml import XmlDocument
@@ -253,6 +253,12 @@ def make_service(calls):
         def fail(ctx, i):
             calls.append(('fail', i))
             raise Fault('Client.Nope', 'no %d' % i)
+
+        # published under an address pattern as well (HttpRpc: the argument comes out of the path)
+        @rpc(Integer, _returns=Integer, _patterns=[HttpPattern('/sq/<n>', verb='GET')])
+        def sq(ctx, n):
+            calls.append(('sq', n))
+            return n * n
     return Svc
 
 
@@ -345,6 +351,8 @@ def requests_for(family):
         'fail': ('GET', '/fail', 'i=4', b'', 'text/plain'),
         'invalid': ('GET', '/echo', 'i=five&s=abc', b'', 'text/plain'),
         'invalid2': ('GET', '/items', 'n=many', b'', 'text/plain'),
+        'pattern': ('GET', '/sq/7', '', b'', 'text/plain'),
+        'pattern2': ('GET', '/sq/12', '', b'', 'text/plain'),
     }
 
 
@@ -498,7 +506,7 @@ SharedMonitor.store = _store_with_prev
 
 REQUEST_KINDS = {'soap11': ['echo', 'multiref', 'item', 'items', 'fail', 'invalid', 'multiref2', 'wsdl'], 'soap11_lxml': ['echo', 'item', 'invalid', 'fail'],
                  'xml': ['echo', 'item', 'items', 'fail', 'invalid'], 'json': ['echo', 'item', 'items', 'fail', 'invalid'],
-                 'http': ['echo', 'item', 'items', 'fail', 'invalid'], 'soap12': ['echo', 'items', 'fail', 'invalid'],
+                 'http': ['echo', 'pattern', 'item', 'items', 'fail', 'invalid', 'pattern2'], 'soap12': ['echo', 'items', 'fail', 'invalid'],
                  'yaml': ['echo', 'item', 'fail', 'invalid'], 'msgpack': ['echo', 'item', 'fail', 'invalid']}
 
 
